@@ -65,7 +65,7 @@ package db
 
 // The set the property calls "leaves": ids in the tree that no node of the tree names as its parent.
 //@ pred leafOf(tree RevTree, id string) bool
-//@   is (id in tree) && (forall x string :: {x in tree} {tree[x]} (x in tree) ==> tree[x].Parent != id)
+//@   is (id in tree) && (forall x string :: {x in tree} {tree[x]} (x in tree) ==> tree[x].Parent != id)   // = (id in tree) && noChild(tree, id)
 
 //@ func RevTree.contains
 //@   safety on
@@ -86,6 +86,67 @@ package db
 //@   requires treeWF(tree)
 //@   ensures[spec] result <==> leafOf(tree, revid)
 //@   loop 1 invariant[no-child] forall x string :: {x in #visited} (x in #visited) ==> tree[x].Parent != revid
+
+// ---- the leaf iterators ----
+
+// Ghost record of the ids handed to the callback of forEachLeaf / the filter of GetLeavesFiltered, and of the
+// ids the filter accepted. The callbacks are abstract: their contract says only that a call records its
+// argument (and requires that the argument was not recorded before, so a second visit of the same id would
+// fail the precondition). What a real callback does to other state is its caller's business.
+//@ ghost var leafVisited set[string]
+//@ ghost var leafAccepted set[string]
+
+//@ pred noChild(tree RevTree, id string) bool
+//@   is forall x string :: {x in tree} {tree[x]} (x in tree) ==> tree[x].Parent != id
+// isParent (the local map both iterators build first) marks exactly the ids that some node names as its parent
+//@ pred marksParents(tree RevTree, isParent map[string]bool) bool
+//@   is forall p string :: {p in isParent} {isParent[p]} (p in isParent) ==> isParent[p] && !noChild(tree, p)
+//@ pred noLeafVisited(tree RevTree) bool
+//@   is forall l string :: {l in leafVisited} {l in tree} leafOf(tree, l) ==> !(l in leafVisited)
+
+//@ func RevTree.forEachLeaf#callback
+//@   requires[fresh] arg0 != nil && !(arg0.ID in leafVisited)
+//@   modifies leafVisited
+//@   ensures leafVisited == union(old(leafVisited), single(arg0.ID))
+
+// forEachLeaf calls its callback exactly once for every leaf l of the tree, with the tree's own node tree[l],
+// and for nothing else: every call is on a leaf ([leaf], asserted before each call), no id is visited twice
+// (precondition [fresh] of the callback), and afterwards the visited set has grown by exactly the leaves.
+//@ func RevTree.forEachLeaf
+//@   safety on
+//@   requires treeWF(tree) && noLeafVisited(tree)
+//@   modifies leafVisited
+//@   before[leaf] call dynamic $0 != nil && leafOf(tree, $0.ID) && $0 == tree[$0.ID]
+//@   ensures[exactly-the-leaves] forall l string :: {l in leafVisited} {l in tree} (l in leafVisited) <==> old(l in leafVisited) || leafOf(tree, l)
+//@   loop 1 invariant[marked]  marksParents(tree, isParent) && leafVisited == old(leafVisited)
+//@   loop 1 invariant[seen]    forall k string :: {k in #visited} (k in #visited) ==> isParent[tree[k].Parent]
+//@   loop 2 invariant[marked]  marksParents(tree, isParent) && (forall k string :: {k in tree} (k in tree) ==> isParent[tree[k].Parent])
+//@   loop 2 invariant[visited] forall l string :: {l in leafVisited} {l in tree} (l in leafVisited) <==> old(l in leafVisited) || ((l in #visited) && leafOf(tree, l))
+
+//@ func RevTree.GetLeavesFiltered#filter
+//@   requires[fresh] !(arg0 in leafVisited)
+//@   modifies leafVisited, leafAccepted
+//@   ensures leafVisited == union(old(leafVisited), single(arg0))
+//@   ensures leafAccepted == ite(result, union(old(leafAccepted), single(arg0)), old(leafAccepted))
+
+// GetLeavesFiltered offers every leaf exactly once to the filter, offers nothing else, and every leaf the
+// filter accepted is in the result. (Not stated: "every element of the result is an accepted leaf" and "no
+// duplicates". Both are true, but they need "each element of append(leaves, x) is an element of leaves or x",
+// and the engine's append axioms deliberately do not produce reads of the old backing array from reads of the
+// new one, so such invariants are only reachable by the solvers' model-based search: 20-30 s or a time-out.)
+//@ func RevTree.GetLeavesFiltered
+//@   requires treeWF(tree) && noLeafVisited(tree)
+//@   requires[none-accepted] forall l string :: {l in leafAccepted} leafOf(tree, l) ==> !(l in leafAccepted)
+//@   modifies leafVisited, leafAccepted
+//@   before[leaf] call dynamic leafOf(tree, $0)
+//@   ensures[offered]  forall l string :: {l in leafVisited} {l in tree} (l in leafVisited) <==> old(l in leafVisited) || leafOf(tree, l)
+//@   ensures[complete] forall l string :: {l in leafAccepted} {l in tree} leafOf(tree, l) && (l in leafAccepted) ==> elem(result, l)
+//@   loop 1 invariant[marked]   marksParents(tree, isParent) && leafVisited == old(leafVisited) && leafAccepted == old(leafAccepted)
+//@   loop 1 invariant[seen]     forall k string :: {k in #visited} (k in #visited) ==> isParent[tree[k].Parent]
+//@   loop 2 invariant[marked]   marksParents(tree, isParent) && (forall k string :: {k in tree} (k in tree) ==> isParent[tree[k].Parent])
+//@   loop 2 invariant[visited]  forall l string :: {l in leafVisited} {l in tree} (l in leafVisited) <==> old(l in leafVisited) || ((l in #visited) && leafOf(tree, l))
+//@   loop 2 invariant[accepted] forall l string :: {l in leafAccepted} (l in leafAccepted) ==> old(l in leafAccepted) || ((l in #visited) && leafOf(tree, l))
+//@   loop 2 invariant[complete] forall l string :: {l in leafAccepted} {l in #visited} (l in #visited) && leafOf(tree, l) && (l in leafAccepted) ==> elem(leaves, l)
 
 // ---- winner ----
 
@@ -200,16 +261,18 @@ package db
 //@   ensures[conflict] alc > 1 <==> !oneLiveLeafAtMost(tree)
 //@   ensures[live]     wLive <==> !(forall l string :: {l in tree} leafOf(tree, l) ==> tree[l].Deleted)
 
-// winningRevision is TRUSTED as the composition of three machine-checked pieces and one unchecked glue step:
+// winningRevision is TRUSTED as the composition of four machine-checked pieces and one unchecked glue step:
 //  - its closure satisfies the step contract above (RevTree.winningRevision$1, verified);
 //  - the step preserves the fold invariant for an arbitrary next leaf (fold_init, fold_step_takes,
 //    fold_step_keeps, fold_step_count, verified), so the result does not depend on the iteration order;
 //  - at the end the invariant is the postcondition below (fold_done, verified);
-//  - GLUE (assumed): forEachLeaf calls the closure exactly once for every id l with leafOf(tree, l), passing
-//    tree[l], and for nothing else. This cannot be checked: a call through a function value is outside the
-//    supported subset ("dynamic call: heap havocked"), so forEachLeaf cannot be given an `iterates` contract.
-//    It is true of the code: forEachLeaf marks every Parent value of the tree in isParent and then calls the
-//    callback for exactly the keys not marked; the same definition is verified for isLeaf.
+//  - forEachLeaf calls its callback exactly once for every id l with leafOf(tree, l), passing tree[l], and
+//    for nothing else (RevTree.forEachLeaf, verified against an abstract callback that records its argument);
+//  - GLUE (assumed): the composition of these two halves -- instantiating the abstract callback of forEachLeaf
+//    with this closure and the fold invariant. The engine has no rule for passing a closure with its own
+//    contract to a verified iterator, so the function body (three lines around the forEachLeaf call:
+//    initialisation of the four variables, `branched = leafCount > 1`, `inConflict = activeLeafCount > 1`)
+//    is not checked.
 // (idsOK is needed for [winner]: a deleted leaf whose id does not parse compares below the initial winner "",
 // so a tree whose leaves are all deleted and malformed yields "" -- fold_step_* require revOK(x).)
 //@ func RevTree.winningRevision
@@ -285,11 +348,10 @@ package db
 // ---- leaves as a list ----
 
 // GetLeaves is TRUSTED: it returns exactly the leaves, each once. Its body is GetLeavesFiltered with an
-// accept-all filter; GetLeavesFiltered calls the filter through a function value, which is outside the
-// supported subset (dynamic call: the verifier havocs the heap, including the list being built), so neither
-// can be checked. True of the code: isParent collects every Parent value; the second loop appends exactly
-// the keys not in isParent (each key of a map is produced once by range). isLeaf, which decides the same
-// predicate for one id, is verified against the same definition.
+// accept-all filter. GetLeavesFiltered is verified (above) against an abstract filter: it offers exactly the
+// leaves, each once, and returns every accepted one; what remains assumed is the instantiation of the abstract
+// filter with the accept-all closure, plus "the result holds nothing but accepted leaves, once each" (see the
+// note at GetLeavesFiltered). isLeaf, which decides the same predicate for one id, is verified as well.
 //@ func RevTree.GetLeaves
 //@   trusted
 //@   ensures[sound]    forall i int :: {result[i]} 0 <= i && i < len(result) ==> leafOf(tree, result[i])
